@@ -50,7 +50,7 @@
      for the implementation model. *)
 From Coq Require Import List NArith ZArith Bool Arith String Ascii.
 Import ListNotations.
-From Cao Require Import CardAst RefSem RefScope RefSemProofs C06Proofs.
+From Cao Require Import CardAst RefSem RefScope RefSemProofs C06Proofs C06Wf.
 
 (* ---- programs for the examples ---- *)
 Local Open Scope string_scope.
@@ -219,17 +219,27 @@ Theorem C06_foreach_scope_exit :
 Proof. exact foreach_scope_exit. Qed.
 Print Assumptions C06_foreach_scope_exit.
 
-(* and whatever is evaluated afterwards keeps the closure record (it still designates the cell c
-   for x) and keeps the cell allocated.  The hypothesis c < List.length (st_cells s) - the cell exists
-   when the closure is looked at - is an invariant of the states reachable from [init_state]
-   (environments and closure records only mention allocated cells); that invariant is not proved
-   here, it is what RefSem's internal verdict [RUnspec 5] guards. *)
+(* every state the semantics reaches from a well-formed state is well formed: every cell that a
+   closure record or the current environment mentions is allocated ([init_state] with the
+   environment of main is well formed, so this covers every state of every program run) *)
+Theorem C06_reachable_states_well_formed :
+  st_ok init_state /\
+  forall P host limit f t s o e' s',
+    st_ok s -> task_ok s t -> eval P host limit f t s = ROk o e' s' ->
+    st_ok s' /\ env_ok (List.length (st_cells s')) e'.
+Proof. split; [exact init_state_ok | exact eval_keeps_cells_allocated]. Qed.
+Print Assumptions C06_reachable_states_well_formed.
+
+(* and whatever is evaluated afterwards (the rest of the loop, the caller after the return, ...)
+   keeps the closure record - it still designates the cell c for x - and keeps the cell allocated *)
 Theorem C06_cell_outlives_scope :
   forall P host limit f t s o e' s' id cl x c,
-    nth_error (st_clos s) id = Some cl -> lookup_scopes x (cl_up cl) = Some c -> c < List.length (st_cells s) ->
+    st_ok s -> task_ok s t ->
+    nth_error (st_clos s) id = Some cl -> lookup_scopes x (cl_up cl) = Some c ->
     eval P host limit f t s = ROk o e' s' ->
-    nth_error (st_clos s') id = Some cl /\ lookup_scopes x (cl_up cl) = Some c /\ c < List.length (st_cells s').
-Proof. exact cell_outlives_scope. Qed.
+    c < List.length (st_cells s) /\
+    nth_error (st_clos s') id = Some cl /\ c < List.length (st_cells s') /\ st_ok s'.
+Proof. exact cell_outlives_scope_wf. Qed.
 Print Assumptions C06_cell_outlives_scope.
 
 (* counter(start) returns { inc, get } over its parameter and a local; the frame of counter is gone
